@@ -17,7 +17,7 @@ import os
 import re
 
 from . import impl, asmrun
-from .gen import ProgramGen, item_text
+from .gen import ProgramGen, item_text, Item
 
 PRACTICE = os.path.join(impl.REPO, "tests", "practice")
 ISA = os.path.join(os.path.dirname(os.path.abspath(__file__)), "..", "lean", "Pdpy11", "Spec", "Isa.lean")
@@ -260,6 +260,11 @@ def stream_generated(ctx, rng, n, mn, syn):
             if i["kind"] == "insn":
                 i["ops"] = [(o[0], ("sym", o[1][1] + "$") + tuple(o[1][2:])) if o[0] == "target" and o[1][0] == "sym" and o[1][1].isdigit() else o for o in i["ops"]]
         head = ".link %o\n" % rng.choice([0o1000, 0o2000, 0o40000])
+        # the last statement of the file varies (what follows it - blanks, no newline, blank lines - is spelling)
+        last_stmt = rng.choice([None, None, "mov (r1)+, (r2)+", "clr @(r3)+", "tst -(sp)", "add #2, (r4)+", ".word 5", ".byte 1", "fin_l:", "fin_x = 5", ".even", ".ascii /a/",
+                                "cmp (sp)+, (sp)+", "1, 2, 3", "jmp @(r5)+"])
+        if last_stmt:
+            items = items + [Item(kind="raw", text=".even\n" + last_stmt)]
         base_text = head + "\n".join(item_text(i, rng, {"plain": True, "bracket": "()"}) for i in items) + "\n"
         r0 = impl.assemble([("/w/s.mac", base_text)])
         ctx.case(base_text, nontrivial=True)
@@ -280,6 +285,10 @@ def stream_generated(ctx, rng, n, mn, syn):
             rs = Respeller(rng, mn, syn)
             if v >= 1:
                 text = rs.text(text)
+            # how the file ends is spelling too
+            ending = rng.choice(["\n", "\n", "", " ", "\t  ", " \t", "\n\n", " \n", "\n  ", "\n\t\n", " ; end", "\n; the end"])
+            text = text.rstrip("\n") + ending
+            ctx.count("rule: file ending " + repr(ending))
             for u in rs.used:
                 ctx.count("rule: " + u)
             ctx.count("rule: radix/brackets/symbol case (structured)")
